@@ -133,4 +133,10 @@ def run_main(fn):
     except build.BuildError as e:
         print('INCONCLUSIVE (build failed): %s' % e)
         sys.exit(2)
+    except Exception:
+        # an unexpected failure of the machinery itself is never a verdict on the property
+        import traceback
+        traceback.print_exc()
+        print('INCONCLUSIVE (harness failure, see traceback)')
+        sys.exit(2)
     sys.exit(rc)
